@@ -5,6 +5,8 @@ import (
 	"fmt"
 
 	aclu "github.com/xuperchain/xupercore/kernel/permission/acl/utils"
+
+	"verif/harness/fx"
 )
 
 // probeCmd: minimal reproduction of the finding KF_IntermediateAKCounts on the real IdentifyAccount (stub
@@ -24,6 +26,31 @@ func probeCmd(args []string) error {
 		ok, err := aclu.IdentifyAccount(mgr, a1, []string{n.uri(env, path)})
 		out[name] = map[string]interface{}{"uri": path, "accepted": ok, "err": fmt.Sprint(err)}
 	}
+	// KF_UnconfirmedAccountOpen through State.VerifyTx on a real chain: K2 creates A1 with the rule "K1 alone";
+	// while that transaction is in the pool the stranger K3 replaces the rule (AuthRequire A1/K3, signed by K3).
+	h, err := newHistSim(fmt.Sprintf("c11probe%d", seed()), n)
+	if err != nil {
+		return err
+	}
+	steps := []map[string]interface{}{}
+	for _, op := range []fx.Ev{
+		{"op": "new", "a": "A1", "r": 1.0, "k": 2.0},
+		{"op": "set", "a": "A1", "r": 3.0, "k": 3.0, "via": 0.0},
+		{"op": "mine"},
+		{"op": "set", "a": "A1", "r": 2.0, "k": 1.0, "via": 0.0}, // the intended owner K1 is locked out
+		{"op": "spend", "a": "A1", "k": 2.0, "via": 3.0},         // KF_IntermediateAKCounts: K2 spends, naming K3
+	} {
+		res, why, err := h.step(op)
+		if err != nil {
+			return err
+		}
+		o, err := h.obs()
+		if err != nil {
+			return err
+		}
+		steps = append(steps, map[string]interface{}{"op": op, "res": res, "why": why, "conf": o["conf"], "pend": o["pend"]})
+	}
+	out["unconfirmed_account_history"] = steps
 	b, _ := json.Marshal(out)
 	fmt.Println(string(b))
 	return nil
